@@ -58,7 +58,7 @@ CHECKS.update({
     "C05": dict(cat="model_checking", text="Explicit-state BFS over edit histories; every transition is compared with a three-valued reference model of the documented set/rm semantics (must succeed with tree T / must be refused / unspecified) through an independent CST decoder of the emitted text: validity, no duplicate definitions, exact attribute tree and let layers, form of new attrpath members, refusals that depend on the wrapper stack.", ref="DESIGN.md 1.3 (E2), 2/C05", note=E2_NOTE, technique="explicit-state BFS over operation histories, lock-step comparison with a reference model, real implementation"),
     "C08": dict(cat="model_checking", text="Every failing transition of the E2 graph: exception type in {KeyError, ValueError}, structural snapshot and rebuilt text of the live document identical before/after, and a differential follow-up layer (same next operation on the live object vs on a document that never saw the failed call).", ref="DESIGN.md 2/C08", note=E2_NOTE, technique="explicit-state BFS with fault transitions: state-snapshot equality after every failing call + differential replay"),
     "C09": dict(cat="model_checking", text="Explicit-state BFS over scoped set/rm histories on documents with 0..3 (thorough 0..4) nested let layers around every editable shape, same name bound in several layers; reference model = list of dicts addressed by selector depth; plus locality of every scoped edit (other layers and body keep their text).", ref="DESIGN.md 2/C09", note=E2_NOTE, technique="explicit-state BFS over scoped edit histories, list-of-dicts layer model, real implementation"),
-    "C14": dict(cat="model_checking", text="Explicit-state BFS over histories of mapping get/set/delete on the document, a nested set, a non-mapping value and the scope mapping; a plain dict runs in lock-step; after every transition dict model == mapping lookups == attribute tree decoded from the rebuilt text; missing keys raise KeyError without side effects.", ref="DESIGN.md 2/C14", note=E2_NOTE, technique="explicit-state BFS over mapping-operation histories with a dict reference model in lock-step"),
+    "C14": dict(cat="model_checking", text="Explicit-state BFS over histories of mapping get/set/delete on the document, a nested set, a non-mapping value and the scope mapping; a plain dict runs in lock-step; after every transition dict model == mapping lookups == attribute tree decoded from the rebuilt text; missing keys raise KeyError without side effects; plus every history of set/del/get over the key spellings a / quoted a / z / quoted z judged by the laws that hold whether or not the two spellings are one key.", ref="DESIGN.md 2/C14", note=E2_NOTE, technique="explicit-state BFS over mapping-operation histories with a dict reference model in lock-step"),
     "C19": dict(cat="model_checking", text="All instances of the four algebraic laws (idempotence, set-fresh/rm undo, rm/set redo, commutation) over every existing and fresh path of every canonical document in the bound, each executed CLI-style (re-parse between steps) and on one live object; the implementation is compared with itself.", ref="DESIGN.md 2/C19", note=E2_NOTE, technique="exhaustive enumeration of operation pairs/triples (paths of the state graph that must close) on the real implementation"),
 })
 
@@ -66,23 +66,23 @@ CHECKS.update({
     "C10": dict(cat="model_checking", text="(a) Every nesting of scoping constructs up to the depth bound (let/rec/plain sets/with/inherit/applied and unapplied functions/pass-through wrappers, the name bound at several levels, chains and cycles) is resolved through the real document and compared with a reference resolver for Nix lexical scoping; (b) BFS over create/resolve/drop histories of several documents in one process with the identity-keyed context registry invariant checked after every step.", ref="DESIGN.md 2/C10", note="Trusted base: the reference resolver nixmc/scopes.py (60 lines of lexical scoping), reaching applied-function bodies through attach_resolution_context as the repository's tests do. Explicit refusals on bound names are violations only inside the documented core constructs.", technique="bounded-exhaustive enumeration of scope nestings vs a reference resolver + explicit-state BFS over document-lifecycle histories with a registry invariant"),
     "C11": dict(cat="model_checking", text="The C10 nestings with unique literals everywhere; `set x 77` through the CLI path and `ref.value = 77` through the API; the single token that may change is the literal the reference resolver designates (or the reference itself when the name is unbound).", ref="DESIGN.md 2/C11", note="Trusted base: reference resolver nixmc/scopes.py; token-level diff over the tree-sitter CST. Valueless binders, cycles and API writes to unbound names are not judged.", technique="bounded-exhaustive enumeration of scope nestings x edit entry points, single-token-diff oracle named by a reference resolver"),
     "C12": dict(cat="exploration", text="All names up to a length bound over a 16-character alphabet (+ keywords) x every legal spelling x (set on empty set, second set / rm with every equivalent spelling, 2-segment paths, spellings already in the file); all path texts up to a length bound against a reference NPath tokenizer.", ref="DESIGN.md 2/C12", note="Trusted base: independent Nix string decoder and reference tokenizer of the documented NPath grammar (nixmc/editmodel.py); shapes the documentation does not settle (text glued behind a closing quote) are not judged.", technique="exhaustive enumeration of all strings up to a length bound, round-trip through an independent decoder"),
-    "C13": dict(cat="exploration", text="All nested Python values in the bound (strings over the escaping alphabet, ints, bools, None, floats, lists and dicts to nesting 3) x 8 construction contexts; the rendered text is read back by an independent CST reader and compared type-exactly; double rendering and re-parse stability.", ref="DESIGN.md 2/C13", note="Trusted base: independent CST-to-Python reader (own unescaper). NUL is excluded from the alphabet (Nix strings cannot represent it).", technique="exhaustive enumeration of a bounded value space x contexts, independent read-back"),
+    "C13": dict(cat="exploration", text="All nested Python values in the bound (strings over the escaping alphabet, ints, bools, None, floats, lists and dicts to nesting 3) x 12 construction contexts (constructors, item assignment into one-line / multi-line sets, over an existing equal-but-differently-typed value, twice, scope mapping); the rendered text is read back by an independent CST reader and compared type-exactly; double rendering and re-parse stability.", ref="DESIGN.md 2/C13", note="Trusted base: independent CST-to-Python reader (own unescaper). NUL is excluded from the alphabet (Nix strings cannot represent it).", technique="exhaustive enumeration of a bounded value space x contexts, independent read-back"),
 })
 
 CHECKS.update({
-    "C15": dict(cat="model_checking", text="Four exhaustive sub-checks: (1) purity - structural snapshot before/after rebuild and three consecutive rebuilds over the E1 space and every state of the depth-2 edit graph; (2) thread schedules - stateless exploration of every interleaving of 2-3 real threads (each on its own document, chosen to collide on the source-bytes / source-path context variables, the per-thread parser and the identity-keyed context registry) with at most 2 (thorough: 3 for two-thread harnesses) preemptions, scheduling points at every bytecode access to a shared-state object found by a census; (3) all k! processing orders of k documents in one process against fresh-process results; (4) digests under 4 hash seeds x 3 working directories.", ref="DESIGN.md 2/C15", note="Trusted base: CPython 3.13 sys.monitoring INSTRUCTION events and threading.Semaphore hand-off; the census (ContextVars, thread-locals, rebound module globals, containers whose state changes during a line-traced serial run); cyclic GC is switched off while threads run and collected between executions; every execution starts from emptied shared containers. Interleavings inside tree-sitter's C parser are not modelled (each thread owns its parser).", technique="stateless model checking of thread interleavings on the real implementation (controlled scheduler, iterative preemption bounding, replay-verified counterexamples) + exhaustive purity/history/configuration enumeration"),
+    "C15": dict(cat="model_checking", text="Exhaustive sub-checks: (1) purity - structural snapshot before/after rebuild and three consecutive rebuilds over the E1 space, every state of the depth-2 edit graph, and every composite construct with each leaf replaced by each of 10 programmatically constructed values; (2) thread schedules - stateless exploration of every interleaving of 2-3 real threads (each on its own document, chosen to collide on the source-bytes / source-path context variables, the per-thread parser and the identity-keyed context registry) with at most 2 (thorough: 3 for two-thread harnesses) preemptions, scheduling points at every bytecode access to a shared-state object found by a census; (3) all k! processing orders of k documents in one process against fresh-process results, and a pool of ~4 600 small documents (every construct x comment / blank-line placement) processed forward, in reverse and interleaved against each document alone in a pristine forked child; (4) digests under 4 hash seeds x 3 working directories.", ref="DESIGN.md 2/C15", note="Trusted base: CPython 3.13 sys.monitoring INSTRUCTION events and threading.Semaphore hand-off; the census (ContextVars, thread-locals, rebound module globals, containers whose state changes during a line-traced serial run); cyclic GC is switched off while threads run and collected between executions; every execution starts from emptied shared containers. Interleavings inside tree-sitter's C parser are not modelled (each thread owns its parser).", technique="stateless model checking of thread interleavings on the real implementation (controlled scheduler, iterative preemption bounding, replay-verified counterexamples) + exhaustive purity/history/configuration enumeration"),
     "C16": dict(cat="exploration", text="Input class x command x channel as real subprocesses `python -m nix_manipulator` (plus a second-round `test` on every emitted text) and many in-process main() calls per document over the E2 operation alphabet; stdout, exit status and channel agreement are compared with the library result computed in the harness.", ref="DESIGN.md 2/C16", note="Reference = parse/rebuild/set_value/remove_value called directly; subprocess environment PYTHONUTF8=1.", technique="exhaustive product enumeration (input class x command x channel) with a differential oracle against the library API"),
-    "C17": dict(cat="exploration", text="Directory layout x import chains of 1-3 hops (every hop spelling: ./ ../ bare a/b, detour, absolute) x 6 working directories x 4 entry-path spellings x chdir between parse and lookup; decoys with different values in every directory and in a mirror tree make a wrong base yield a wrong value; error shapes (string argument, call argument, <spath>, missing file).", ref="DESIGN.md 2/C17", note="Scratch tree created and removed by the check; values planted by the harness are the oracle.", technique="exhaustive product enumeration of layouts/chains/working directories with planted-value oracle"),
+    "C17": dict(cat="exploration", text="Directory layout x import chains of 1-3 hops (every hop spelling: ./ ../ bare a/b, detour, absolute) x 6 working directories x 4-6 entry-path spellings (absolute, relative, ./relative, detour, directory part ending in ..) x chdir between parse and lookup; decoys with different values in every directory and in a mirror tree make a wrong base yield a wrong value; error shapes (string argument, call argument, <spath>, missing file).", ref="DESIGN.md 2/C17", note="Scratch tree created and removed by the check; values planted by the harness are the oracle.", technique="exhaustive product enumeration of layouts/chains/working directories with planted-value oracle"),
 })
 
 TEXT_NOTE = "Trusted base: tree-sitter-nix 0.1.0 decides which texts contain a syntax error (ERROR or MISSING node). 'All UTF-8 texts' is realised as all token strings up to the stated length over a 36-token alphabet plus every single-point damage of every seed program; longer texts and other byte alphabets are outside the bound."
 CHECKS.update({
-    "C07": dict(cat="fault_enumeration", text="Every single-point damage (delete, duplicate, swap, insert each of 31 tokens at each gap, truncate at every byte) of every seed program and all token strings up to the length bound, with surrounding-whitespace variants; for every text the grammar rejects: byte-identical pass-through, contains_error, `nima test` says Fail/1, set/rm refuse, and the text is refused as a VALUE without touching the document.", ref="DESIGN.md 2/C07", note=TEXT_NOTE, technique="exhaustive fault enumeration (all single-point damages of a seed corpus + all short token strings) on the real implementation"),
-    "C20": dict(cat="exploration", text="(a) the C07 text spaces with the oracle 'returns or raises ValueError'; (b) every nesting family (each composite construct nested in each of its own holes around two innermost programs; period-2 families) to depth 12 (thorough 18), measured by a deterministic count of rebuild() invocations: calls(2d) <= 16*calls(d), cap 2M calls.", ref="DESIGN.md 2/C20", note=TEXT_NOTE + " Growth is judged on call counts, not wall time; families are those of the catalogue.", technique="exhaustive enumeration of short texts and of nesting families x depth, deterministic call-count growth oracle"),
+    "C07": dict(cat="fault_enumeration", text="Every single-point damage (delete, duplicate, swap, insert each of 31 tokens at each gap, truncate at every byte) of every seed program and all token strings up to the length bound, with surrounding-whitespace variants; for every text the grammar rejects: byte-identical pass-through, contains_error, `nima test` says Fail/1, set/rm refuse for every selector kind (a, a.b, @a, @@a, @a.b), the text is refused as a VALUE without touching the document, the same through parse_file; plus double faults (a trailing formals comma, which the gate tolerates, combined with every single-point damage).", ref="DESIGN.md 2/C07", note=TEXT_NOTE, technique="exhaustive fault enumeration (all single-point damages of a seed corpus + all short token strings) on the real implementation"),
+    "C20": dict(cat="exploration", text="(a) the C07 text spaces with the oracle 'returns or raises ValueError'; (b) every nesting family (each composite construct nested in each of its own holes around a leaf, a multi-line set, with the nested program on the next line at every level, and with 120-character leaves that cross the renderer's only width threshold; period-2 families) to depth 12 (thorough 18), measured by a deterministic count of rebuild() invocations: calls(2d) <= 16*calls(d), the last two step-2 ratios not both >= 1.9, cap 2M calls.", ref="DESIGN.md 2/C20", note=TEXT_NOTE + " Growth is judged on call counts, not wall time; families are those of the catalogue.", technique="exhaustive enumeration of short texts and of nesting families x depth, deterministic call-count growth oracle"),
 })
 
 CHECKS.update({
-    "C02": dict(cat="exploration", text="All derivations of a canonical-layout printer for the package-file idiom (header comment, lambda head, let block, body set / call / rec call, 16 member kinds incl. nested sets, call arguments, lists, attrpaths, inherit, with/if values, indented strings, own-line / end-of-line / block comments, single blank lines) up to 3 (thorough 4) members and 2 decorations: parse -> rebuild must return the identical bytes and `nima test` must say OK.", ref="DESIGN.md 2/C02", note="nixfmt is not installed: canonicity is defined by the printer in nixmc/props/c02.py, each production anchored to a nixfmt-validated literal of the repository's own tests or to an RFC 0166 paragraph (table in the module docstring). Multi-line formals (trailing comma) are syntax errors for the pinned grammar and only exercise pass-through.", technique="bounded-exhaustive enumeration of the derivations of a reference printer (grammar-based), byte-identity oracle"),
+    "C02": dict(cat="exploration", text="All derivations of a canonical-layout printer for the package-file idiom (header comment, lambda head, let block, body set / call / rec call, 22 member kinds incl. nested sets, comment-only lists in four positions, a let-with-call value, non-ASCII strings, call arguments, lists, attrpaths, inherit, with/if values, indented strings, own-line / end-of-line / block comments, single blank lines, chains of 2-4 directly nested let blocks) up to 3 (thorough 4) members and 2 decorations: parse -> rebuild must return the identical bytes and `nima test` must say OK.", ref="DESIGN.md 2/C02", note="nixfmt is not installed: canonicity is defined by the printer in nixmc/props/c02.py, each production anchored to a nixfmt-validated literal of the repository's own tests or to an RFC 0166 paragraph (table in the module docstring). Multi-line formals (trailing comma) are syntax errors for the pinned grammar and only exercise pass-through.", technique="bounded-exhaustive enumeration of the derivations of a reference printer (grammar-based), byte-identity oracle"),
 })
 
 NOT_YET = {
@@ -117,7 +117,7 @@ def main():
         "setup_cmd": "./check --selftest",
         "hooks": {
             "guard": "NIMA_VERIF",
-            "enable": "no source hooks are needed: all observation is done from outside (module globals, sys.settrace, wrappers installed by the harness); ./check exports NIMA_VERIF=1 for uniformity",
+            "enable": "no source hooks are needed: all observation is done from outside (module globals, sys.monitoring, wrappers installed by the harness); ./check exports NIMA_VERIF=1 for uniformity",
             "baseline_off_cmd": "cd /repo && env -u NIMA_VERIF /venv/bin/python -m pytest -ra -q -p no:cacheprovider --timeout=900 --continue-on-collection-errors",
             "source_commits": [],
             "add_only": True,
